@@ -302,6 +302,7 @@ def render(a):
     out = []
     out.append("/- GENERATED by tools/translators/tr_c05.py from dune/common/parallel/interface.hh and dune/common/enumset.hh")
     out.append("   of the tree under test — do not edit; `python3 tools/regen.py C05` rewrites it from /repo. -/")
+    out.append("set_option linter.unusedVariables false")
     out.append("namespace DV.C05.Gen")
     out.append("")
     out.append("/-- which of the two attribute-set parameters of `buildInterface` a test consults -/")
